@@ -725,7 +725,13 @@ class Evaluator:
                 self.eval(s["e"], frame)
             elif k == "rangebind":
                 d = s["var"]
-                if is_ref(self.F.T(d["t"])):
+                vt = strip_cvref(self.F.T(d["t"]))
+                et = strip_cvref(self.F.T(s["elt"])) if s.get("elt") is not None else vt
+                if vt != et and (vt in _FLOAT or vt in _INT_TYPES) and (et in _FLOAT or et in _INT_TYPES):
+                    # the loop variable has another arithmetic type than the elements: each element is converted (a copy,
+                    # also when the variable is a const reference)
+                    frame["locals"][d["i"]] = self.new_loc(self.convert_arith(self.load(s["el"]), et, vt), "l_" + d["n"])
+                elif is_ref(self.F.T(d["t"])):
                     frame["locals"][d["i"]] = s["el"]
                 else:
                     frame["locals"][d["i"]] = self.new_loc(self.load(s["el"]), "l_" + d["n"])
@@ -749,7 +755,7 @@ class Evaluator:
                 els = self.range_elements(s, frame)
                 unrolled = []
                 for el in els:
-                    unrolled += [{"k": "rangebind", "var": s["var"], "el": el}, {"k": "loop_enter"}, s["body"], {"k": "loop_leave"}]
+                    unrolled += [{"k": "rangebind", "var": s["var"], "el": el, "elt": s.get("elt")}, {"k": "loop_enter"}, s["body"], {"k": "loop_leave"}]
                 stmts = unrolled + [{"k": "loop_end"}] + list(stmts[i + 1:])
                 i = 0
                 continue
@@ -1045,9 +1051,15 @@ class Evaluator:
         if "map<" in t:
             return ("table", v["id"])
         if v.get("init") is not None and v.get("constexpr"):
+            # one object per constexpr variable and evaluator: positions taken from it on different occasions (cbegin() here,
+            # an iterator found earlier there) refer to the same array
+            cache = self.__dict__.setdefault("_constexpr_globals", {})
+            if v["id"] in cache:
+                return cache[v["id"]]
             fr = {"f": {"name": name, "ret": v["t"]}, "params": [], "locals": {}, "this": None}
             lv = self.new_loc(self.blank(t), "g")
             self.init_into(lv, v["init"], fr)
+            cache[v["id"]] = lv
             return lv
         if v.get("init") is not None and v.get("under_root") and ("basic_string" in t):
             # a namespace-scope string / string_view: its value is its initialiser
@@ -1148,6 +1160,20 @@ class Evaluator:
             raise ReinterpretCast("reinterpreting cast " + ck)
         if ck == "Dependent":
             raise Inconclusive("dependent cast")
+        return v
+
+    def convert_arith(self, v, frm, tot):
+        """The implicit conversion of an arithmetic value from type frm to type tot (as e_cast does for written casts)."""
+        if frm == tot:
+            return v
+        if frm in _FLOAT and tot in _FLOAT:
+            if is_const(v) and (self.fold or _exact_in(v[1], tot)):
+                return v
+            return ("cast", tot, v, frm)
+        if frm in _FLOAT:
+            return ("fn", "trunc", v)
+        if tot in _FLOAT:
+            return C(v) if isinstance(v, int) and not isinstance(v, bool) else ("cast", tot, v)
         return v
 
     def arith(self, op, a, b, t=None):
@@ -1316,7 +1342,11 @@ class Evaluator:
         r = self.rv(self.eval(e["r"], frame))
         if op in ("==", "!=", "<", ">", "<=", ">="):
             return self.compare(op, l, r)
-        return self.arith(op, l, r, self.F.T(e["t"]))
+        res = self.arith(op, l, r, self.F.T(e["t"]))
+        rec = self.__dict__.get("record_int_ops")
+        if rec is not None and op in ("+", "-", "*"):
+            rec.setdefault(id(e), []).append(res)
+        return res
 
     def e_cassign(self, e, frame):
         l = self.eval(e["l"], frame)
@@ -1444,6 +1474,19 @@ class Evaluator:
         if t in self.F.records:
             if len(items) == 1 and isinstance(items[0], Obj) and items[0].type == t:
                 return items[0]   # T{prvalue of T}: guaranteed elision
+            r = self.F.records[t]
+            if not r["bases"] and len(items) <= len(r["fields"]) and not any(f["kind"] == "ctor" and not f.get("implicit") and not f.get("defaulted") for f in self.F.methods(t)):
+                # aggregate initialisation of a plain struct: members in declaration order, the rest from their default
+                # member initialisers or value-initialised
+                base = self.default_init(t)
+                fields = dict(base.f) if isinstance(base, Obj) else {}
+                for fd, v in zip(r["fields"], items):
+                    fields[fd["n"]] = v
+                for fd in r["fields"][len(items):]:
+                    if fd.get("init") is None:
+                        ft = strip_cvref(self.F.T(fd["t"]))
+                        fields[fd["n"]] = self.zero_value(ft) if hasattr(self, "zero_value") else fields[fd["n"]]
+                return Obj(t, fields)
             raise Inconclusive("aggregate-style initialisation of class " + t)
         if len(items) == 1:
             return items[0]
@@ -1641,7 +1684,9 @@ class Evaluator:
                 # rebuilt from a C string: runs to the first NUL byte, not to the end of the original view
                 return Str([("cstr_of", v[1])])
             if isinstance(v, tuple) and v and v[0] == "ptr":
-                raise Inconclusive("string from pointer")
+                # text read back from a character buffer (filled by snprintf, ...): its content is outside the string
+                # model; an opaque chunk, which every rule that looks at the text refuses to reason about
+                return Str([("opaque", "characters of a buffer")])
             if isinstance(v, tuple) and v and v[0] in ("fn", "g"):
                 return Str([("sv", v)])
             raise Inconclusive("string constructor from " + repr(v)[:60])
@@ -1671,6 +1716,9 @@ class Evaluator:
                 tname.startswith("std::_Rb_tree_iterator<") or tname.startswith("std::__detail::_Node_iterator<"):
             if args:
                 return self.rv(self.eval(args[0], frame))
+        if tname.startswith("std::initializer_list<"):
+            # a view of the backing array: copying it copies the view (the elements are never modified through it)
+            return self.rv(self.eval(args[0], frame)) if args else Arr([])
         if tname.startswith("std::hash<"):
             return Obj(tname, {})
         if re.match(r"std::(less|greater|less_equal|greater_equal|equal_to|not_equal_to)<", tname):
@@ -1700,6 +1748,17 @@ class Evaluator:
         if sn in ("min", "max", "clamp") and base.startswith("std::"):
             vs = [val(i) for i in range(len(args))]
             return ("fn", sn) + tuple(vs)
+        if sn == "distance" and base.startswith("std::") and len(args) == 2:
+            def dist(a, b):
+                if isinstance(b, tuple) and b and b[0] == "g":
+                    return gamma(b[1], dist(a, b[2]), dist(a, b[3]))
+                if isinstance(a, tuple) and a and a[0] == "g":
+                    return gamma(a[1], dist(a[2], b), dist(a[3], b))
+                if isinstance(a, tuple) and isinstance(b, tuple) and a and b and a[0] == "ptr" and b[0] == "ptr" and a[1] == b[1] \
+                        and a[2][:-1] == b[2][:-1] and isinstance(a[2][-1], int) and isinstance(b[2][-1], int):
+                    return b[2][-1] - a[2][-1]
+                raise Inconclusive("std::distance of unrelated positions")
+            return dist(val(0), val(1))
         mfo = re.match(r"std::(less|greater|less_equal|greater_equal|equal_to|not_equal_to)<.*>::operator\(\)$", name)
         if mfo and len(args) == 2:
             return self.compare({"less": "<", "greater": ">", "less_equal": "<=", "greater_equal": ">=", "equal_to": "==", "not_equal_to": "!="}[mfo.group(1)], val(0), val(1))
@@ -1937,7 +1996,7 @@ class Evaluator:
         self.unknown_calls.append(name)
         return ("fn", "?" + name) + tuple(_freeze(self.rv(a)) for a in args)
 
-    RANGE_ALGOS = {"std::transform", "std::equal", "std::all_of", "std::any_of", "std::none_of", "std::accumulate", "std::copy",
+    RANGE_ALGOS = {"std::find_if", "std::find_if_not", "std::transform", "std::equal", "std::all_of", "std::any_of", "std::none_of", "std::accumulate", "std::copy",
                    "std::fill", "std::for_each", "std::inner_product", "std::copy_n", "std::fill_n"}
 
     def _range(self, first, last):
@@ -2005,6 +2064,14 @@ class Evaluator:
         if rng is None:
             return _NOMODEL
         n = len(rng)
+        if sn in ("find_if", "find_if_not") and len(args) == 3:
+            # the first position whose element satisfies the predicate, else last: a conditional choice among concrete positions
+            res = vals[1]
+            for x in reversed(rng):
+                c = self.apply_callable(args[2], [x])
+                c = b_not(c) if sn == "find_if_not" else c
+                res = gamma(c, ("ptr", x.loc, x.path), res)
+            return res
         if sn == "transform" and len(args) == 4:
             dst = self._from(vals[2], n)
             if dst is None:
